@@ -33,7 +33,7 @@ ASSUMPTIONS = ['fleet members are compared with each other (no reference model);
                'pastified members are compared among themselves (the delay semantics is C03)']
 REAL = common.REAL_ALL
 STUBS = common.STUBS_ALL
-PROBES = ['unit_on_one_end_only', 'mixed_units_in_one_interval', 'default_unit_not_s', 'period_unit_differs_from_default_unit',
+PROBES = ['period_unit_omitted', 'sampling_period_set_before_unit', 'unit_on_one_end_only', 'mixed_units_in_one_interval', 'default_unit_not_s', 'period_unit_differs_from_default_unit',
           'pastified', 'dense_fleet', 'non_multiple_bound', 'non_multiple_rejected_at_parse_or_pastify', 'non_multiple_rejected_at_first_evaluation']
 
 TICKS = [
@@ -56,7 +56,7 @@ def gen(rng, tier):
     mode = rng.choice(['offline', 'online', 'pastified'])
     nv = rng.randint(1, 2)
     vars_ = common.VARS[:nv]
-    ops = {'offline': set(sg.ALL_OPS), 'online': common.PAST_OPS, 'pastified': common.BOUNDED_FUTURE_OPS}[mode]
+    ops = {'offline': set(sg.ALL_OPS), 'online': common.PAST_OPS, 'pastified': common.BOUNDED_FUTURE_OPS - {'log'}}[mode]   # log: F08
     for _ in range(100):
         ast = sg.gen_formula(rng, sg.GenCfg(vars=vars_, ops=ops, max_depth=rng.randint(2, 4), max_bound=rng.choice([2, 3, 5])))
         if any(x[0] in sg.TUN + sg.TBIN for x in sg.walk(ast)):
@@ -68,7 +68,7 @@ def gen(rng, tier):
     for j in range(k):
         P, pu = cls_[rng.randrange(len(cls_))]
         nt = {'period': P, 'pu': pu, 'du': rng.choice([None, 's', 'ms', 'us', 'ns']), 'tol': 0.1, 'style': 'random',
-              'force_sampling': rng.random() < 0.3}
+              'force_sampling': rng.random() < 0.3, 'omit_unit': rng.random() < 0.5, 'sampling_first': rng.random() < 0.4}
         if not units.feasible(1, nt, ''):
             nt['du'] = pu
         if j == 0 and (P, pu) == cls_[0]:
@@ -234,6 +234,10 @@ def run(sc):
         r.probes['period_unit_differs_from_default_unit'] += 1
     if mode == 'pastified':
         r.probes['pastified'] += 1
+    if any(nt.get('omit_unit') and nt['pu'] == 's' and units.spec_config(nt).get('sampling') for nt in sc['fleet']):
+        r.probes['period_unit_omitted'] += 1
+    if any(nt.get('sampling_first') and nt.get('du') for nt in sc['fleet']):
+        r.probes['sampling_period_set_before_unit'] += 1
     if outs and common.count_nontrivial(outs[0]) and len(set(texts)) > 1:
         r.nontrivial.add('%s|%s|%s' % (sg.shape(ast), mode, ','.join(sorted(set(units.notation_class(nt) for nt in sc['fleet'])))))
     return r
